@@ -36,8 +36,18 @@ func LoadWordVectors(filepath string) (*Index, error) {
 		return nil, fmt.Errorf("failed to read vocab size: %w", err)
 	}
 
+	const dimension = 100 // GloVe 100d
+
+	// The count comes from the file: never size anything from it before checking it
+	// against what the file can actually hold (2 bytes length + vector per word).
+	if info, err := f.Stat(); err == nil {
+		if maxWords := info.Size() / int64(2+4*dimension); int64(vocabSize) > maxWords {
+			return nil, fmt.Errorf("corrupt word vector file: header claims %d words, file can hold at most %d", vocabSize, maxWords)
+		}
+	}
+
 	idx := &Index{
-		Dimension:   100, // GloVe 100d
+		Dimension:   dimension,
 		WordVectors: make(map[string][]float32, vocabSize),
 	}
 
@@ -90,6 +100,12 @@ func (idx *Index) LoadCommandEmbeddings(filepath string) error {
 
 	if int(dimension) != idx.Dimension {
 		return fmt.Errorf("dimension mismatch: expected %d, got %d", idx.Dimension, dimension)
+	}
+
+	if info, err := f.Stat(); err == nil {
+		if maxCommands := info.Size() / int64(4*dimension); int64(numCommands) > maxCommands {
+			return fmt.Errorf("corrupt command embedding file: header claims %d commands, file can hold at most %d", numCommands, maxCommands)
+		}
 	}
 
 	// Read embeddings
